@@ -482,13 +482,16 @@ Proof.
   intros M NP. destruct (agrees_with_file_server_model root sb r r' M NP) as (cs & A & _). rewrite A. discriminate.
 Qed.
 
-(** PROPPATCH: DavServer.serve has no case for it and answers 405; internal/server.go
-    decodes the body and asks the backend, which refuses with 403 (or the decoding fails: 400).
-    The real handler over a LocalFileSystem answers 403 / 400. *)
+(** PROPPATCH: this proof found that DavServer.serve had no case for it and answered 405, where
+    internal/server.go decodes the body and asks the backend, which refuses with 403 (or the
+    decoding fails: 400) - and so does the real handler over a LocalFileSystem.  DavServer.v has
+    since been given that case ([D.do_proppatch]; [D.pf r = PfBad] stands for "the
+    propertyupdate body is not decodable"); the former witness now shows agreement.  The
+    exclusion of PROPPATCH in the theorem above is still to be lifted. *)
 Definition proppatch_req : D.request :=
   {| D.meth := "PROPPATCH"; D.rpath := "/a"; D.h_depth := ""; D.h_overwrite := ""; D.h_dest := D.DestAbsent;
      D.h_ctype := "application/xml"; D.h_if_match := ""; D.h_if_none_match := ""; D.d_if_match := None;
-     D.d_if_none_match := None; D.body := ""; D.body_fails := false; D.pf := D.PfBad; D.stamp := 0;
+     D.d_if_none_match := None; D.body := ""; D.body_fails := false; D.pf := D.PfAllProp; D.stamp := 0;
      D.dir_tag := ""; D.mime_tab := []; D.sniffed := "" |}.
 
 Definition proppatch_req' : ServerTotal.request :=
@@ -497,7 +500,7 @@ Definition proppatch_req' : ServerTotal.request :=
      r_xml := XTree (XElem NS_DAV "propertyupdate" [] []);
      r_ical_ok := false; r_vcard_ok := false; r_url_ok := fun _ => true |}.
 
-Lemma proppatch_differs :
-  st (D.serve [] None proppatch_req) = 405 /\
+Lemma proppatch_example_agrees :
+  st (D.serve [] None proppatch_req) = 403 /\
   ServerTotal.serve (CDav (local_env [] None proppatch_req) proppatch_req') = Resp 403 [].
 Proof. split; vm_compute; reflexivity. Qed.
